@@ -813,7 +813,15 @@ def gen_case(rng, tier, game, lang, focus, pool, codec=CODEC):
             k = "R"
         if k in ("W", "WA", "WT") and not p.endswith("/"):
             hits_f.append((p, loc))
-        if k == "W":
+        if k == "W" and focus == "c12" and not p.endswith("/") and rng.random() < 0.12:
+            # write, read, edit in place, read again - with a large incompressible payload and the same payload with a few
+            # bytes in the MIDDLE changed: the two compressed streams have the same length, the same first and the same last
+            # bytes (seeded change codec-3 memoised decompress on exactly that key and returned the stale expansion)
+            big = bytes(rng.getrandbits(8) for _ in range(rng.choice([150, 300, 520])))
+            mid = len(big) // 2
+            big2 = big[:mid] + bytes((x + 1) & 0xFF for x in big[mid:mid + 3]) + big[mid + 3:]
+            ops += [("W", loc, p, big), ("R", loc, p), ("W", loc, p, big2), ("R", loc, p)]
+        elif k == "W":
             ops.append(("W", loc, p, rng.choice(pool)))
         elif k == "WA":
             smp = rng.choice([x for x in samples if x[0] == "bin"])
